@@ -20,7 +20,8 @@ func (c16) Rule() string {
 }
 func (c16) Assumptions() []string {
 	return []string{
-		"where the statement gives no precedence (a referenced name defined in several layers, a valueless key absent from the project environment) nothing beyond totality is asserted",
+		"a valueless key absent from the project environment: nothing beyond totality is asserted",
+		"for a name defined in two layers that an env file may reference, the order in which the statement lists them (earlier env files, project environment, earlier lines) is read as the precedence",
 	}
 }
 
@@ -184,6 +185,59 @@ func (c16) Run(c *core.Ctx) {
 				if got == nil || *got != want {
 					return core.Outcome{Class: ptrStr(got), Sample: sample, Viol: &core.Violation{Key: fmt.Sprintf("xref:wrong-value:w%d", where),
 						Msg: fmt.Sprintf("%s: A = %s, expected %q", id, ptrStr(got), want)}}
+				}
+				return core.Outcome{Class: id + ptrStr(got), Sample: sample}
+			})
+		}
+	}
+	// ---- cross references with the name defined in TWO layers: the statement lists what an env file may
+	// reference as "earlier env files, the project environment and earlier lines"; with the dotenv rule
+	// (lookup first, earlier lines second) this reads as a precedence: earlier file > project environment > earlier line
+	for combo := 0; combo < 3; combo++ { // 0: earlier file + project env; 1: project env + earlier line; 2: earlier file + earlier line
+		for form := 0; form < 2; form++ { // 0: ${B} reference, 1: bare inherited key
+			combo, form := combo, form
+			id := fmt.Sprintf("xref2/c%d/f%d", combo, form)
+			c.Do(id, func() core.Outcome {
+				files := map[string]string{"e1.env": "P=1\n", "e2.env": ""}
+				env := map[string]string{}
+				want := ""
+				switch combo {
+				case 0:
+					files["e1.env"] += "B=f1\n"
+					env["B"] = "pe"
+					want = "f1"
+				case 1:
+					env["B"] = "pe"
+					files["e2.env"] += "B=l2\n"
+					want = "pe"
+				case 2:
+					files["e1.env"] += "B=f1\n"
+					files["e2.env"] += "B=l2\n"
+					want = "f1"
+				}
+				key := "A"
+				if form == 0 {
+					files["e2.env"] += "A=x${B}y\n"
+					want = "x" + want + "y"
+				} else {
+					if combo != 0 {
+						return core.Outcome{Class: "na", Trivial: true}
+					}
+					files["e2.env"] += "B\n" // bare key: inherited from the lookup
+					key = "B"
+				}
+				files["compose.yaml"] = "services:\n  s:\n    image: i\n    env_file: [./e1.env, ./e2.env]\n"
+				s := &Scn{Files: files, Main: []string{"compose.yaml"}, Env: env}
+				root := s.Materialise()
+				p, err := s.LoadAt(root)
+				sample := map[string]any{"case": id, "files": files, "env": env}
+				if err != nil {
+					return core.Outcome{Class: "err", Sample: sample, Viol: &core.Violation{Key: "xref:spurious-error", Msg: id + ": " + err.Error()}}
+				}
+				got := p.Services["s"].Environment[key]
+				if got == nil || *got != want {
+					return core.Outcome{Class: ptrStr(got), Sample: sample, Viol: &core.Violation{Key: fmt.Sprintf("xref:wrong-precedence:c%d", combo),
+						Msg: fmt.Sprintf("%s: %s = %s, expected %q (earlier env file > project environment > earlier line)", id, key, ptrStr(got), want)}}
 				}
 				return core.Outcome{Class: id + ptrStr(got), Sample: sample}
 			})
